@@ -64,16 +64,23 @@ PLANS["C02"] = {
 }
 
 PLANS["C18"] = {
-    "require_ops": ['measure'],
-    "facets": "none",
-    "own": ["res.metrics"],
+    "require_ops": ['measure', 'mutate', 'update'],
+    "facets": "text",
+    "own": ["res.metrics", "text"],
     "mc": [{
+        # cells built from every item kind, mutated and updated: reported height / width / lines follow the text
+        "module": "MCItems",
+        "quick": dict(MaxHist=6),
+        "thorough": dict(MaxHist=7),
+        "properties": ["TextStable"],
+        "subst": {"quick": [{"n": 3}], "thorough": [{"n": k} for k in range(3, 9)]},
+    }, {
         "module": "MCMetrics",
         "quick": dict(MaxLen=5),
         "thorough": dict(MaxLen=7),
         "subst": {"quick": [{"n": 1}, {"n": 2}], "thorough": [{"n": k} for k in range(1, 9)]},
     }],
-    "random": [{"gen": gens.gen_metrics}],
+    "random": [{"gen": gens.gen_metrics}, {"gen": gens.gen_items}],
     "min_scenarios": {"quick": 1000, "thorough": 20000},
     "assumptions": [
         "display width is the library's own measure (logged, not modelled)",
@@ -349,14 +356,15 @@ ALLCRE = '{"core", "csv", "html", "json", "markdown", "texttable", "auto:csv", "
 ALLFMT = '{"text", "csv", "html", "json", "md"}'
 
 
-def _wmc(content, creators, kinds, wraps, renders, targets=ALLFMT):
-    return dict(Content=content, Creators=Raw(creators), WrapKinds=Raw(kinds), MaxWraps=wraps, MaxRenders=renders, Targets=Raw(targets))
+def _wmc(content, creators, kinds, wraps, renders, targets=ALLFMT, decors="{}"):
+    return dict(Content=content, Creators=Raw(creators), WrapKinds=Raw(kinds), MaxWraps=wraps, MaxRenders=renders, Targets=Raw(targets),
+                DecorSwitch=Raw(decors))
 
 
 PLANS["C10"] = {
     "require_ops": ['wrap', 'render', 'newtable'],
     "facets": "same",
-    "own": ["res.same", "out.text", "out.csv", "out.html", "out.json", "out.md", "out.errtext", "res.dec"],
+    "own": ["res.same", "out.text", "out.csv", "out.html", "out.json", "out.md", "out.errtext", "res.dec", "res.autostyle"],
     "mc": [
         {"module": "MCWrap", "properties": ["RenderPure"],
          "quick": _wmc("c1", ALLCRE, '{"text", "csv", "md"}', 2, 1),
@@ -381,8 +389,8 @@ PLANS["C14"] = {
     "own": ["res.rep", "grid", "drows", "text", "props", "errs"],
     "mc": [
         {"module": "MCWrap", "properties": ["RenderPure"], "run_opts": {"every": True},
-         "quick": _wmc("c1", '{"core"}', '{"text", "md", "html"}', 2, 3, '{"text", "md", "html", "csv"}'),
-         "thorough": _wmc("c1", '{"core", "texttable"}', ALLFMT, 2, 4)},
+         "quick": _wmc("c1", '{"core"}', '{"text", "md"}', 2, 3, '{"text", "md", "csv"}', '{"ascii-simple", "utf8-light"}'),
+         "thorough": _wmc("c1", '{"core", "texttable"}', ALLFMT, 2, 4, ALLFMT, '{"ascii-simple", "utf8-light"}')},
         {"module": "MCWrap", "properties": ["RenderPure"], "run_opts": {"every": True},
          "quick": _wmc("c3", '{"core", "markdown"}', '{"text", "md"}', 2, 3, '{"text", "md", "json"}'),
          "thorough": _wmc("c3", '{"core", "markdown"}', ALLFMT, 2, 3)},
